@@ -52,6 +52,13 @@ def _psi(rng):
     n = random_unit(rng)
     if rng.random() < 0.2:
         n = np.eye(3)[int(rng.integers(3))] * (1 if rng.random() < 0.5 else -1)
+    elif rng.random() < 0.15:
+        # axes in coordinate planes and along face / space diagonals: exact zero components, components of equal magnitude
+        while True:
+            n = rng.integers(-1, 2, size=3).astype(float)
+            if np.any(n):
+                break
+        n = n / np.linalg.norm(n)
     cls = "zero" if a == 0 else ("<1e-9" if a < 1e-9 else "<1e-6" if a < 1e-6 else ("<1e-4" if a < 1e-4 else ("<1e-1" if a < 0.1 else "large")))
     return a * n, cls
 
